@@ -53,24 +53,24 @@ mod set_reach__redecl;
 mod cp__par;
 mod lex_lat__par;
 mod lat_multi_improve__ser;
-mod count_paths__to;
-mod count_paths__redecl;
-mod neg_basic__topar;
-mod neg_basic__init;
-mod neg_basic__exppar;
-mod agg_depth__topar;
-mod agg_user__pari;
-mod agg_bound_mix__pari;
-mod disj__pari;
-mod disj__src2;
-mod disj__permpar;
-mod pat_args__ser;
-mod rep_expr__exp;
-mod neg_in_disj__par;
-mod mac_basic__topar;
-mod mac_basic__init;
-mod mac_capture__exp;
-mod mac_disj__par;
+mod count_paths__ser;
+mod count_paths__src0;
+mod neg_basic__par;
+mod neg_basic__src1;
+mod neg_basic__ren;
+mod agg_depth__par;
+mod agg_lattice__topar;
+mod neg_rec_after__exppar;
+mod agg_empty__topar;
+mod disj__gen;
+mod disj__perm1;
+mod disj_nested__pari;
+mod rep_expr__ser;
+mod multi_head_disj__exp;
+mod mac_basic__par;
+mod mac_basic__src1;
+mod mac_capture__ser;
+mod mac_nested__exp;
 
 fn lookup(name: &str) -> fn() -> Box<dyn Driven> {
    match name {
@@ -119,24 +119,24 @@ fn lookup(name: &str) -> fn() -> Box<dyn Driven> {
       "cp__par" => cp__par::make,
       "lex_lat__par" => lex_lat__par::make,
       "lat_multi_improve__ser" => lat_multi_improve__ser::make,
-      "count_paths__to" => count_paths__to::make,
-      "count_paths__redecl" => count_paths__redecl::make,
-      "neg_basic__topar" => neg_basic__topar::make,
-      "neg_basic__init" => neg_basic__init::make,
-      "neg_basic__exppar" => neg_basic__exppar::make,
-      "agg_depth__topar" => agg_depth__topar::make,
-      "agg_user__pari" => agg_user__pari::make,
-      "agg_bound_mix__pari" => agg_bound_mix__pari::make,
-      "disj__pari" => disj__pari::make,
-      "disj__src2" => disj__src2::make,
-      "disj__permpar" => disj__permpar::make,
-      "pat_args__ser" => pat_args__ser::make,
-      "rep_expr__exp" => rep_expr__exp::make,
-      "neg_in_disj__par" => neg_in_disj__par::make,
-      "mac_basic__topar" => mac_basic__topar::make,
-      "mac_basic__init" => mac_basic__init::make,
-      "mac_capture__exp" => mac_capture__exp::make,
-      "mac_disj__par" => mac_disj__par::make,
+      "count_paths__ser" => count_paths__ser::make,
+      "count_paths__src0" => count_paths__src0::make,
+      "neg_basic__par" => neg_basic__par::make,
+      "neg_basic__src1" => neg_basic__src1::make,
+      "neg_basic__ren" => neg_basic__ren::make,
+      "agg_depth__par" => agg_depth__par::make,
+      "agg_lattice__topar" => agg_lattice__topar::make,
+      "neg_rec_after__exppar" => neg_rec_after__exppar::make,
+      "agg_empty__topar" => agg_empty__topar::make,
+      "disj__gen" => disj__gen::make,
+      "disj__perm1" => disj__perm1::make,
+      "disj_nested__pari" => disj_nested__pari::make,
+      "rep_expr__ser" => rep_expr__ser::make,
+      "multi_head_disj__exp" => multi_head_disj__exp::make,
+      "mac_basic__par" => mac_basic__par::make,
+      "mac_basic__src1" => mac_basic__src1::make,
+      "mac_capture__ser" => mac_capture__ser::make,
+      "mac_nested__exp" => mac_nested__exp::make,
       _ => panic!("no such program variant in this shard: {}", name),
    }
 }
